@@ -105,8 +105,8 @@ structure GDim where
   kbits : Array UInt64
 
 def GDim.toRat (d : GDim) : Dim Rat :=
-  ⟨d.order, d.nknots, d.nknots - d.order - 1, d.stride,
-   fun i => if i < 0 then 0 else match d.kbits[i.toNat]? with | some u => (ratOfBits u).getD 0 | none => 0⟩
+  let kr : Array Rat := d.kbits.map fun u => (ratOfBits u).getD 0      -- converted once
+  ⟨d.order, d.nknots, d.nknots - d.order - 1, d.stride, fun i => if i < 0 then 0 else kr.getD i.toNat 0⟩
 
 def parseGDims : Nat → List String → Option (List GDim × List String)
   | 0, rest => some ([], rest)
